@@ -101,6 +101,12 @@ namespace PL
          case 3:
             if constexpr( ( ( VERIF_CTLS ) & 8 ) != 0 ) return run_fam< mon1 >( c, in, fuel_limit );
             break;
+         case 4:
+            if constexpr( ( ( VERIF_CTLS ) & 16 ) != 0 ) return run_fam< mon_errA >( c, in, fuel_limit );
+            break;
+         case 5:
+            if constexpr( ( ( VERIF_CTLS ) & 32 ) != 0 ) return run_fam< mon_errB >( c, in, fuel_limit );
+            break;
       }
       fprintf( stderr, "FATAL: control %d not compiled into this unit\n", c.ctl );
       abort();
@@ -116,6 +122,7 @@ namespace PL
    inline std::string raise_message_of( int who )
    {
       if( who == R::WHO_RAISE_MSG ) return "rmsg";
+      if( who == 1 && g_errors == 1 ) return "custom message for n1";
       if( who == R::WHO_LIMIT_DEPTH ) return "maximum parser rule nesting depth exceeded";
       if( who == R::WHO_LIMIT_BYTES ) return "maximum allowed rule consumption reached";
       if( who == R::WHO_CHECK_BYTES ) return "maximum allowed rule consumption exceeded";
@@ -242,7 +249,8 @@ namespace PL
             return "";
          case R::NESTED: {
             if( r.kind != Real::PARSE_ERROR ) return std::string( "reference raises nested, implementation: " ) + real_name( r.kind );
-            if( r.msg != raise_message_of( o.who ) ) return "nested raise names '" + r.msg + "', reference '" + raise_message_of( o.who ) + "'";
+            // raise_nested is not overridden by must_if<>::control: always the default message of the rule
+            if( r.msg != "parse error matching " + node_names[ o.who ] ) return "nested raise names '" + r.msg + "', reference 'parse error matching " + node_names[ o.who ] + "'";
             if( !r.nested ) return "raise_nested without nested exception";
             int nk = -1;
             switch( o.nk ) {
